@@ -442,6 +442,35 @@ pub fn run(cfg: &Cfg, out: &mut Out) {
         let (progs, sch) = gen_progs(&mut r);
         one(out, &progs, &sch);
     }
+    // deep hand-over grid: pusher A (thread 1) is held either just before its hand-over CAS or just after that
+    // CAS failed (before it re-loads the tail) while pusher B (thread 2) pushes j more values — through zero, one
+    // or two further hand-overs — then A finishes, then B, then a reader snapshots and clears.
+    let _ = root;
+    for pre in [B - 1, B] {
+        for after_failed_cas in [false, true] {
+            for j in [1usize, B - 2, B - 1, B, B + 1, 2 * B - 2, 2 * B - 1, 2 * B, 2 * B + 1] {
+                out.case(&format!("deep-handover pre={} after_failed_cas={} j={}", pre, after_failed_cas, j));
+                let t0: Vec<Call> = pf(pre);
+                let t1 = vec![Call::Push(900_001)];
+                let nb = 1 + j + 2;
+                let t2: Vec<Call> = (0..nb as u64).map(|x| Call::Push(10_000 + x)).collect();
+                let t3 = vec![Call::Data, Call::Clear, Call::Data];
+                // A: start, load_tail, claim → parked at cas_new (pre = B) or at publish/claim (pre = B-1)
+                let mut sch = [rep(0, pre * 3 + 4), rep(1, 3)].concat();
+                // B's first push (with pre = B this performs the hand-over A is about to lose)
+                sch.extend(rep(2, 7));
+                if after_failed_cas {
+                    sch.extend(rep(1, 1)); // A's CAS (fails when B handed over) → parked at load_tail
+                }
+                sch.extend(rep(2, j * 3 + (j / B + 1) * 3));
+                sch.extend(rep(1, 12));
+                sch.extend(rep(2, nb * 3 + 12));
+                sch.extend(rep(3, 600));
+                out.count("deep-handover");
+                one(out, &[t0, t1, t2, t3], &sch);
+            }
+        }
+    }
     if cfg.thorough {
         let configs: Vec<(Vec<Vec<Call>>, Vec<usize>)> = vec![
             (vec![vec![Call::Push(1)], vec![Call::Push(2)], vec![Call::Clear]], vec![]),
